@@ -197,7 +197,8 @@ pub fn specs(tier: &str) -> Vec<ExpSpec> {
             (FatType::Fat32, 512, 8),
         ]
     } else {
-        vec![(FatType::Fat12, 512, 2), (FatType::Fat12, 4096, 8), (FatType::Fat12, 512, 64)]
+        // (64 KiB clusters - legal, above what 16-bit offset arithmetic holds - in the quick tier as well)
+        vec![(FatType::Fat12, 512, 2), (FatType::Fat12, 4096, 8), (FatType::Fat12, 512, 64), (FatType::Fat16, 512, 128)]
     };
     for (ft, bps, spc) in geos {
         let cfg = geometry_cfg(ft, bps, spc, 8);
